@@ -157,6 +157,7 @@ def run_case(case, ctx):
             sec_skip = {SEC}
             sec0 = _dump_one(second.ds, SEC)
             ctx.count("histories_next_to_a_second_datastore_on_the_same_file")
+        shared = [None]
         deleted = {}
         never = [10**8]
         created_rank = {bids[i]: r for r, i in enumerate(case["order"])}
@@ -238,8 +239,16 @@ def run_case(case, ctx):
             outcome = "ok"
             try:
                 b = ds[A]
+                if kind in ("insert", "replace", "replace_last") and shared[0] is not None and (k + len(A)) % 6 == 0:
+                    # the caller hands over the very Event object it gave to the previous operation - on another bucket, as
+                    # likely as not (one heartbeat mirrored into two buckets): what the first bucket holds is not this object
+                    reuse = shared[0]
+                    ctx.count("operations_given_the_previous_operations_event_object")
+                else:
+                    reuse = None
                 if kind == "insert":
-                    b.insert(mk_event(op["ev"]))
+                    shared[0] = reuse or mk_event(op["ev"])
+                    b.insert(shared[0])
                 elif kind == "insert_with_id":
                     i, origin = _resolve(ds, bids, a, op["id"], deleted, never)
                     e = mk_event(op["ev"])
@@ -260,9 +269,11 @@ def run_case(case, ctx):
                     b.insert(evs)
                 elif kind == "replace":
                     i, origin = _resolve(ds, bids, a, op["id"], deleted, never)
-                    b.replace(i, mk_event(op["ev"]))
+                    shared[0] = reuse or mk_event(op["ev"])
+                    b.replace(i, shared[0])
                 elif kind == "replace_last":
-                    b.replace_last(mk_event(op["ev"]))
+                    shared[0] = reuse or mk_event(op["ev"])
+                    b.replace_last(shared[0])
                 elif kind == "delete":
                     i, origin = _resolve(ds, bids, a, op["id"], deleted, never)
                     own = set(_ids(ds, A))
